@@ -90,7 +90,7 @@ BUILT = {
             'positions of a two-grid probe with sentinel neighbours; after dump+parse the grid/row/cell structure, the '
             'sentinels and the payload must be identical, in ZINC and JSON. Thorough enumerates all 1,112,064 scalar code '
             'points and all 40,495 strings of length <=3 over a 34-character metachar alphabet; quick U+0000..U+2FFF, plane '
-            'boundaries, a stride sample and all strings of length <=2.',
+            'boundaries, a stride sample and all strings of length <=2. Every third probe follows a refused, dropped and collected look-alike dump.',
             'Lone surrogates excluded; payload batches of 48 per probe, bisected on failure.',
             'DESIGN.md 3/C08'),
     'C09': ('exhaustive single-edit mutation of a document corpus + line splices + broken-by-construction documents + hypothesis token soup + atheris/libFuzzer campaigns; exception-type/position/rejection/termination oracle',
@@ -171,13 +171,14 @@ BUILT = {
             '+-{0,1 s,30 min} x three microsecond values x both formats, the written date-time must read back with the same '
             'instant, offset and Haystack zone name and the text must carry that name; map laws are checked for every name. '
             'Every whole-minute fixed offset -14h..+14h, pytz alias zones and a custom DST tzinfo at ambiguous/skipped/ordinary '
-            'local times must give a zone of equal offset and equal instant, or ValueError - nothing else.',
+            'local times must give a zone of equal offset and equal instant, or ValueError - nothing else. After reads of differently '
+            'spelled zone names (other case, stray blank) a zone is still written under its own name and the maps stay inverse bijections.',
             'Trusts pytz as the zone database and its transition table as the list of transitions.',
             'DESIGN.md 3/C17'),
     'C18': ('exhaustive enumeration of version-string pairs/triples + hypothesis strings against an independent reference key',
             'All 3,459,600 ordered pairs over 1,860 version strings (padding x suffix) are compared with an independently written '
             'reference order for trichotomy, six-operator agreement, string operands on both sides, hash/set/dict behaviour, '
-            'grammar-cache identity and nearest(); all triples over a 40/120-string subset for transitivity and congruence; plus '
+            'grammar-cache identity and nearest(); all triples over a 40/120-string subset for transitivity and congruence; one long-lived object per string of a 150/300-string subset compared in a fixed sequence; plus '
             'seeded Hypothesis strings. Search, not proof: outside the enumerated universe only sampled.',
             'Trusts the reference key written from the module doc-string of hszinc/version.py; suffixes contain no newline.',
             'DESIGN.md 3/C18'),
